@@ -85,7 +85,7 @@ func checkC05(c *Ctx) (int, error) {
 	}
 	c.ev.Rule = fmt.Sprintf("%d streams per container kind (flate, gzip, zlib; 8 encoders) x source kinds {bufio 16,17,100,4095,4096,65536; bytes.Reader; bytes.Buffer; strings.Reader; custom ByteReader} x {NewReader, Reset after another stream} with a suffix of 0..5000 bytes, rotating chunk/read schedules and acceleration levels; after io.EOF the unread remainder of the caller's source must be exactly the suffix; gzip in Multistream(false) mode; distinct by (stream, source kind, constructor, suffix)", n)
 	c.ev.Exhaustive = true
-	for _, cs := range cases[:minInt(3, len(cases))] {
+	for _, cs := range spread(cases) {
 		c.ev.sample(map[string]interface{}{"case": cs.Tag})
 	}
 	return c.readerRun("c05", cases, true)
@@ -164,7 +164,7 @@ func checkC11(c *Ctx) (int, error) {
 	}
 	c.ev.Rule = fmt.Sprintf("%d streams per kind (flate, gzip, zlib) with two Flush points; the source releases the bytes up to each sync point / the stream end in chunks {all,1,3,4096} and then would block or fails; sources {plain, bufio 4096, bufio 64}; judged at the gate and at the final result; distinct by (stream, prefix, after, chunking, source)", n)
 	c.ev.Exhaustive = true
-	for _, cs := range cases[:minInt(3, len(cases))] {
+	for _, cs := range spread(cases) {
 		c.ev.sample(map[string]interface{}{"case": cs.Tag})
 	}
 	return c.readerRun("c11", cases, true)
@@ -221,7 +221,7 @@ func checkC15(c *Ctx) (int, error) {
 	}
 	c.ev.Rule = fmt.Sprintf("%d streams per kind (flate, gzip incl. two members, zlib); the source fails after k bytes for every k (stride > 1 above %d bytes), alternating error-alone / error-with-data, sources {plain, bufio16, bufio4096}, Read sizes {1,7,4096}, rotating acceleration levels; distinct by (stream, k, source)", n, limit)
 	c.ev.Exhaustive = true
-	for _, cs := range cases[:minInt(3, len(cases))] {
+	for _, cs := range spread(cases) {
 		c.ev.sample(map[string]interface{}{"case": cs.Tag})
 	}
 	return c.readerRun("c15", cases, true)
@@ -331,7 +331,7 @@ func checkC13(c *Ctx) (int, error) {
 	}
 	c.ev.Rule = fmt.Sprintf("%d first streams per kind x stop point {before first Read, partial with undelivered output, EOF, corrupt, source error, a fixed-block stream followed by a stream with an injected fault (flate, all 17 kinds), read in Multistream(false) mode (gzip)} x next input {2 valid, truncated, lookback-before-start, synthesised fixed/random blocks (flate), two-member file (gzip), dictionary stream (zlib)}; the segment after Reset is compared with a fresh Reader on the same input (group clause) and judged by the contract; distinct by (first, stop, next)", n)
 	c.ev.Exhaustive = true
-	for _, cs := range cases[:minInt(4, len(cases))] {
+	for _, cs := range spread(cases) {
 		c.ev.sample(map[string]interface{}{"case": cs.Tag})
 	}
 	// only the last segment of a case takes part in the comparison
